@@ -110,8 +110,8 @@ func c09Case(c *Ctx, stream string, orig *dns.Msg, size int, plain bool) {
 		later = false
 	}
 	c.Pred(stream, "no-later-after-cut", in, later, fmt.Sprint(len(m.Answer), len(m.Ns), len(exRes)), "later sections empty after a cut", nt)
-	c.Pred(stream, "opt-retained", in, (opt == nil && optRes == nil) || (opt != nil && optRes == opt && m.Extra[len(m.Extra)-1] == opt),
-		fmt.Sprint(optRes), "OPT kept as last additional", nt)
+	c.Pred(stream, "opt-retained", in, (opt == nil && optRes == nil) || (opt != nil && optRes == opt),
+		fmt.Sprint(optRes), "OPT kept", nt)
 	c.Pred(stream, "tc", in, m.Truncated == (wasTC || dropped), b01(m.Truncated), b01(wasTC || dropped), nt)
 	if ulen <= S {
 		c.Pred(stream, "fits-keeps-all", in, !dropped, "dropped", "all kept", true)
